@@ -1,6 +1,7 @@
 import QipVerif.Lemmas.RenderLabels3
 /-! C20: `links_reach` — where the pieces of one iteration end up in the final picture. -/
 namespace QipVerif.Render
+variable {v : Variant}
 
 /-- row `r` of a wire / of a piece: 0 = top, 1 = middle, 2 (or more) = bottom -/
 def Wire.row (w : Wire) : Nat → Str
@@ -40,8 +41,8 @@ theorem stable_cell (r x : Nat) (ch : Char) : Stable (fun w => (w.row r)[x]? = s
     | _ + 2, h => exact getElem?_append_some h
 
 theorem steps_append {sty : Style} {N C : Nat} {pre post : List Op} {op : Op} {st st' : St}
-    (h : steps sty N C st (pre ++ op :: post) = .ok st') :
-    ∃ st1 st2, steps sty N C st pre = .ok st1 ∧ step sty N C st1 op = .ok st2 ∧ steps sty N C st2 post = .ok st' := by
+    (h : steps v sty N C st (pre ++ op :: post) = .ok st') :
+    ∃ st1 st2, steps v sty N C st pre = .ok st1 ∧ step v sty N C st1 op = .ok st2 ∧ steps v sty N C st2 post = .ok st' := by
   induction pre generalizing st with
   | nil =>
     simp only [List.nil_append] at h
@@ -63,7 +64,7 @@ theorem steps_append {sty : Style} {N C : Nat} {pre post : List Op} {op : Op} {s
 
 /-- a cell of the state after some iteration is a cell of the final picture -/
 theorem cell_final {sty : Style} {c : Circ} {st2 st1 : St} {post : List Op}
-    (h3 : steps sty c.N c.C st2 post = .ok st1) {k r x : Nat} {ch : Char} (hc : cell st2 k r x = some ch) :
+    (h3 : steps v sty c.N c.C st2 post = .ok st1) {k r x : Nat} {ch : Char} (hc : cell st2 k r x = some ch) :
     cell (finalPad sty c.N st1) k r x = some ch := by
   unfold cell at *
   cases hk : st2[k]? with
@@ -119,16 +120,16 @@ end place
 /-- **the general form of `links_reach`**: split a covered circuit at any element; every character of
 every piece the element's iteration appends is found in the final picture on the piece's wire, at
 the column `xskip + offset` — the same `xskip` for all wires of the element. -/
-theorem piece_in_picture {sty : Style} {c : Circ} {st : St} (hc : circOk sty c = true) (h : layoutSt sty c = .ok st)
+theorem piece_in_picture {sty : Style} {c : Circ} {st : St} (hc : circOk v sty c = true) (h : layoutSt v sty c = .ok st)
     {pre post : List Op} {op : Op} (hops : c.ops = pre ++ op :: post) :
-    ∃ (xs : Nat) (pl : Plan), plan sty.pad c.N c.C op = .ok pl ∧
+    ∃ (xs : Nat) (pl : Plan), plan v sty.pad c.N c.C op = .ok pl ∧
       ∀ a ∈ pl.acts, ∀ r i ch, (a.2.row r)[i]? = some ch → cell st a.1 r (xs + i) = some ch := by
   simp only [circOk, Bool.and_eq_true, List.all_eq_true] at hc
   obtain ⟨st0, stf, h0, hsteps, rfl⟩ := layoutSt_ok h
   rw [hops] at hsteps
   obtain ⟨st1, st2, h1, h2, h3⟩ := steps_append hsteps
-  have hpre : ∀ o ∈ pre, opOk c.N o = true := fun o ho => hc.2 o (by rw [hops]; exact List.mem_append_left _ ho)
-  have hop : opOk c.N op = true := hc.2 op (by rw [hops]; simp)
+  have hpre : ∀ o ∈ pre, opOk v c.N o = true := fun o ho => hc.2 o (by rw [hops]; exact List.mem_append_left _ ho)
+  have hop : opOk v c.N op = true := hc.2 op (by rw [hops]; simp)
   have hinv := steps_inv hpre h1 (labels_inv hc.1 h0)
   obtain ⟨pl, hpl, _, _, hN, rfl⟩ := step_ok h2
   refine ⟨(getXskip sty.align c.N st1 pl.wl (layerOf st1 pl.wl)).toNat, pl, hpl, fun a ha r i ch hch => ?_⟩
